@@ -119,6 +119,45 @@ CLAIMED["C18"] = (
     "Smooth cheap component functions; adaptive trigger count modelled as bounds where the documentation leaves it open.",
     "DESIGN.md 3/C18, 7.3")
 
+CLAIMED["C02"] = (
+    "Hypothesis over EOS (bag, template, two-step, cubic closed form, traced) x Tn over five decades x wall-velocity "
+    "classes with mass at v_min, c_b, v_J x two tolerance settings; backward-error oracle on the junction conditions "
+    "(own Newton correction inside the tolerance box), boundary constants on both sides, independent reference matcher",
+    "Every returned matching conserved energy and momentum flux within the backward bound, the boundary constants "
+    "equal the fluxes on both sides, and where the reference finds an exact matching the returned one is it - except "
+    "for the listed known findings (unconverged/fallback matchings).",
+    "Reference hydrodynamics (vlib/refhydro.py) validated against bag/template closed forms; vw = c_b exactly not "
+    "generated (template solver does not terminate there).", "DESIGN.md 3/C02, 7.3")
+CLAIMED["C03"] = (
+    "Hypothesis over the C02 domain plus independently drawn (vw, v+, T+) triples; independent integrator in the "
+    "similarity variable (DOP853, rtol 1e-11) crossing the front with energy-flux conservation as oracle; efficiency "
+    "factor against quadrature over the reference profile",
+    "The matched flow reaches Tn at rest within the backward bound, the momentum-flux condition holds at the front "
+    "for constant-cs EOS, detonations have T+=Tn and v+=vw, solveHydroShock and efficiencyFactor agree with the "
+    "reference.", "Near-sonic fronts below 1e-6 discarded; kappa bound 5e-3 away from vJ (measured 6.6e-4).",
+    "DESIGN.md 3/C03, 7.3")
+CLAIMED["C05"] = (
+    "Hypothesis over EOS x Tn with alpha_n constructed so that interior roots, runaway and static sentinels each take "
+    ">= 29 % of cases; sign change of the entropy mismatch of the Tn-matched flow inside the backward window; "
+    "Chebyshev scan + reference root search for sentinels",
+    "Interior LTE velocities are zeros of the entropy mismatch within the tolerance image; sentinels are consistent "
+    "with the sign of the mismatch over the window - except for the listed known findings.",
+    "Margins around thresholds are discards, as the property itself excludes them.", "DESIGN.md 3/C05, 7.3")
+CLAIMED["C06"] = (
+    "Hypothesis over EOS x Tn x wall-velocity classes x constructed window cuts (phase ranges set to the reference "
+    "T-(v*) / T+(v*), genuine flag both ways); admissibility predicates, Chapman-Jouguet minimisation by the harness, "
+    "classification flip at vJ, fastestDeflag/slowestDeton against the constructed cut",
+    "Returned matchings are admissible and correctly classified, vJ is the Chapman-Jouguet point, and advertised "
+    "fastest deflagration / slowest detonation coincide with constructed range ends - except for the listed known findings.",
+    "Strict inequalities are arbitrated by the exact reference solution; cuts resolved worse than 0.005 discarded.",
+    "DESIGN.md 3/C06, 7.3")
+CLAIMED["C15"] = (
+    "Hypothesis differential testing of Hydrodynamics against HydrodynamicsTemplateModel on template EOS at two "
+    "tolerance levels, with the independent reference arbitrating which side is wrong",
+    "vJ, vMin, matching, boundary constants, LTE velocity and efficiency factor of the two solvers agree within "
+    "K tol kappa and not worse at the tighter level - except for the listed known findings.",
+    "alpha_n bounded below by a positive bag constant; |vw - vJ| <= 1e-5 discarded.", "DESIGN.md 3/C15, 7.3")
+
 PENDING_REASON = "check not built yet in this session; see DESIGN.md section 3 for the planned oracle"
 
 
